@@ -32,7 +32,7 @@ func KseRequest(name, raw string) *http.Request {
 // bytes except '/', whose decoded form is drawn from a small alphabet that
 // contains every byte the path handling code distinguishes.
 func KseRawParam(param string) (string, error) {
-	maxLen := verif.Bound("raw-len", 6, 10)
+	maxLen := verif.Bound("raw-len", 6, 8)
 	maxDecoded := verif.Bound("decoded-len", 4, 5)
 	n := verif.Len("n", 1, maxLen)
 	raw := verif.String("raw", n)
@@ -47,14 +47,9 @@ func KseRawParam(param string) (string, error) {
 		verif.Reach("longer-than-decoded-bound")
 		verif.Assume(false)
 	}
-	wide := verif.Bound("wide-alphabet", 0, 1) == 1
 	for i := 0; i < len(val); i++ {
 		c := val[i]
-		if wide {
-			verif.Assume(verif.Or(c == '/', c == '.', c == 'a', c == '%', c == '\\'))
-		} else {
-			verif.Assume(verif.Or(c == '/', c == '.', c == 'a'))
-		}
+		verif.Assume(verif.Or(c == '/', c == '.', c == 'a'))
 	}
 	verif.Cover("decoded-shorter", len(val) < n)
 	return val, nil
@@ -64,12 +59,19 @@ func KseRawParam(param string) (string, error) {
 // (so '/' may occur), over the same alphabet, for longer names than the raw
 // form affords.
 func KseDecodedName() string {
-	maxLen := verif.Bound("name-len", 5, 7)
+	maxLen := verif.Bound("name-len", 5, 6)
 	n := verif.Len("n", 1, maxLen)
 	val := verif.String("name", n)
+	// thorough: short names also over '%' and '\\' (no special meaning is
+	// expected for them after unescaping)
+	wide := verif.Bound("wide-alphabet-up-to-len", 0, 4) >= n
 	for i := 0; i < n; i++ {
 		c := val[i]
-		verif.Assume(verif.Or(c == '/', c == '.', c == 'a'))
+		if wide {
+			verif.Assume(verif.Or(c == '/', c == '.', c == 'a', c == '%', c == '\\'))
+		} else {
+			verif.Assume(verif.Or(c == '/', c == '.', c == 'a'))
+		}
 	}
 	return val
 }
